@@ -32,7 +32,7 @@ func (c conj) list() []string {
 }
 
 // has: some atom matches all patterns. Pattern language: "^!" as first pattern → the atom must be negated (otherwise it
-// must be positive); "$suffix" → the atom ends with suffix; anything else → substring.
+// must be positive); "$suffix" → the atom ends with suffix; anything else → substrings that must occur in the given order.
 func (c conj) has(sub ...string) bool {
 	wantNeg := false
 	if len(sub) > 0 && sub[0] == "^!" {
@@ -44,18 +44,7 @@ func (c conj) has(sub ...string) bool {
 			if strings.HasPrefix(a, "!") != wantNeg {
 				continue
 			}
-			ok := true
-			for _, s := range sub {
-				if strings.HasPrefix(s, "$") {
-					if !strings.HasSuffix(a, s[1:]) {
-						ok = false
-						break
-					}
-				} else if !strings.Contains(a, s) {
-					ok = false
-					break
-				}
-			}
+			ok := matchOrdered(a, sub)
 			if ok {
 				return true
 			}
@@ -64,13 +53,34 @@ func (c conj) has(sub ...string) bool {
 	return false
 }
 
+// matchOrdered: every pattern occurs in a, each after the end of the previous one ("$suffix": a ends with suffix).
+func matchOrdered(a string, sub []string) bool {
+	at := 0
+	for _, s := range sub {
+		if strings.HasPrefix(s, "$") {
+			if !strings.HasSuffix(a, s[1:]) {
+				return false
+			}
+			continue
+		}
+		i := strings.Index(a[at:], s)
+		if i < 0 {
+			return false
+		}
+		at += i + len(s)
+	}
+	return true
+}
+
 var equivCache = map[string][]string{}
 
-var cmpNeg = map[string]string{"<": ">=", "<=": ">", ">": "<=", ">=": "<", "==": "!=", "!=": "=="}
 var cmpMirror = map[string]string{"<": ">", "<=": ">=", ">": "<", ">=": "<=", "==": "==", "!=": "!="}
+var cmpNeg = map[string]string{"<": ">=", "<=": ">", ">": "<=", ">=": "<", "==": "!=", "!=": "=="}
 
 // equivForms: the atom itself plus, when it is a (possibly negated) comparison "(L op R)", the equivalent spellings
 // obtained by pushing the negation into the operator and by swapping the operands: !(a <= b) ≡ (a > b) ≡ (b < a) ≡ !(b >= a).
+// Because the swapped spelling is also tried, patterns are matched IN ORDER (matchOrdered): a pattern that names an operand
+// before or after the operator pins the side it stands on, and cannot be satisfied by the comparison of the opposite sense.
 // A pattern written against one spelling of a guard therefore matches every spelling of the same guard.
 func equivForms(a string) []string {
 	if f, ok := equivCache[a]; ok {
@@ -163,11 +173,12 @@ func dnfOr(a, b dnf) dnf {
 }
 
 type bform struct {
-	p       *Prog
-	inline  int
-	visited map[ssa.Value]bool
-	memo    map[*ssa.BasicBlock]dnf
-	inprog  map[*ssa.BasicBlock]bool
+	p        *Prog
+	inline   int
+	visited  map[ssa.Value]bool
+	memo     map[*ssa.BasicBlock]dnf
+	inprog   map[*ssa.BasicBlock]bool
+	inHelper map[*ssa.Function]bool
 }
 
 func (p *Prog) boolDNF(v ssa.Value, want bool) dnf {
@@ -216,6 +227,21 @@ func (b *bform) dnf(v ssa.Value, want bool, depth int) dnf {
 			out = dnfOr(out, dnfAnd(pc, ed))
 		}
 		return out
+	case *ssa.BinOp:
+		// `helper(..) == nil` known true (or `!= nil` known false), helper a small module function whose last result is
+		// an error: the helper succeeded, so one of its non-failing returns was taken — conjoin the disjunction of their
+		// path conditions (parameters replaced by the arguments), as for boolean helpers below
+		if (x.Op == token.NEQ && !want) || (x.Op == token.EQL && want) {
+			var cv ssa.Value
+			if isNilConst(x.Y) {
+				cv = x.X
+			} else if isNilConst(x.X) {
+				cv = x.Y
+			}
+			if d, ok := b.helperSuccess(cv, depth); ok {
+				return dnfAnd(atom(v, want), d)
+			}
+		}
 	case *ssa.Call:
 		f := x.Call.StaticCallee()
 		if f != nil && f.Blocks == nil && f.Origin() != nil {
@@ -239,6 +265,87 @@ func (b *bform) dnf(v ssa.Value, want bool, depth int) dnf {
 		}
 	}
 	return atom(v, want)
+}
+
+// helperSuccess: cv is the error result of a call to a small module function; returns the condition under which that
+// function returns a nil error, in the caller's terms.
+func (b *bform) helperSuccess(cv ssa.Value, depth int) (dnf, bool) {
+	if cv == nil || depth >= 6 {
+		return nil, false
+	}
+	var call *ssa.Call
+	switch y := cv.(type) {
+	case *ssa.Call:
+		call = y
+	case *ssa.Extract:
+		c, ok := y.Tuple.(*ssa.Call)
+		if !ok || y.Index != c.Call.Signature().Results().Len()-1 {
+			return nil, false
+		}
+		call = c
+	default:
+		return nil, false
+	}
+	f := call.Call.StaticCallee()
+	if f != nil && f.Blocks == nil && f.Origin() != nil {
+		f = f.Origin()
+	}
+	if f == nil || f.Blocks == nil || !(b.p.AllFuncs[f] || (f.Origin() != nil && b.p.AllFuncs[f.Origin()])) {
+		return nil, false
+	}
+	res := f.Signature.Results()
+	if res.Len() == 0 || res.At(res.Len()-1).Type().String() != "error" {
+		return nil, false
+	}
+	// only straight-line validation helpers: the atoms of a helper with loops are about its own iteration variables and
+	// would be meaningless (and could clash textually) in the caller
+	if len(f.Blocks) > 12 {
+		return nil, false
+	}
+	for _, blk := range f.Blocks {
+		for _, sc := range blk.Succs {
+			if sc.Dominates(blk) {
+				return nil, false
+			}
+		}
+	}
+	if b.inHelper == nil {
+		b.inHelper = map[*ssa.Function]bool{}
+	}
+	if b.inHelper[f] {
+		return nil, false
+	}
+	b.inHelper[f] = true
+	defer delete(b.inHelper, f)
+	var out dnf
+	sub := &bform{p: b.p, visited: map[ssa.Value]bool{}, inHelper: b.inHelper}
+	for _, ret := range returnsOf(f) {
+		last := ret.Results[len(ret.Results)-1]
+		if definitelyNonNilErr(last) {
+			continue
+		}
+		failing := false
+		for _, fc := range factsAtBlock(ret.Block) {
+			if bo, ok := fc.Cond.(*ssa.BinOp); ok && fc.Pos && bo.Op == token.NEQ && isNilConst(bo.Y) && flowsFrom(last, bo.X, 0) {
+				failing = true
+			}
+		}
+		if failing {
+			continue
+		}
+		pc := sub.pathCond(ret.Block, nil, f, depth+2)
+		// a forwarded inner error (`return g(..)`): the inner helper succeeded too
+		if !isNilConst(last) {
+			if d, ok := sub.helperSuccess(last, depth+2); ok {
+				pc = dnfAnd(pc, d)
+			}
+		}
+		out = dnfOr(out, pc)
+	}
+	if len(out) == 0 {
+		return nil, false
+	}
+	return substParams(out, f, call.Call.Args), true
 }
 
 func isBoolResult(f *ssa.Function) bool {
